@@ -4,13 +4,14 @@ use crate::support::*;
 use educe::Educe;
 use core::cmp::Ordering;
 #[derive(Educe)]
-#[educe(PartialOrd, PartialEq, Eq)]
-pub enum T { None(), B, Some(char, #[educe(PartialOrd(rank = 3))] u8, #[educe(PartialOrd(rank = "0"))] Option<u8>), Unit(#[educe(PartialOrd(rank = "-1"))] i64, u8) }
-
-pub fn values() -> Vec<T> { vec![T::None(), T::B, T::Some('z', 100, None), T::Some('a', 100, Some(0)), T::Some('a', 0, None), T::Some('z', 0, Some(255)), T::Some('a', 100, None), T::Some('a', 0, Some(255)), T::Some('a', 200, None), T::Some('z', 200, Some(0)), T::Some('a', 100, Some(255)), T::Unit(-5, 0), T::Unit(-5, 100), T::Unit(-5, 200), T::Unit(0, 0), T::Unit(0, 100), T::Unit(0, 200), T::Unit(9, 0), T::Unit(9, 100), T::Unit(9, 200)] }
-pub fn show(x: &T) -> String { #[allow(unused_variables)] match x { T::None() => format!("None()"), T::B => format!("B()"), T::Some(p0, p1, p2) => format!("Some({},{},{})", sv(p0), sv(p1), sv(p2)), T::Unit(p0, p1) => format!("Unit({},{})", sv(p0), sv(p1)) } }
-pub fn o_disc(x: &T) -> i128 { match x { T::None() => 0, T::B => 1, T::Some(_, _, _) => 2, T::Unit(_, _) => 3 } }
-pub fn o_pcmp(a: &T, b: &T) -> Option<Ordering> { match (a, b) { (T::None(), T::None()) => {  Some(Ordering::Equal) }, (T::B, T::B) => {  Some(Ordering::Equal) }, (T::Some(a0, a1, a2), T::Some(b0, b1, b2)) => { match ::core::cmp::PartialOrd::partial_cmp(a0, b0) { Some(Ordering::Equal) => (), x => return x } match ::core::cmp::PartialOrd::partial_cmp(a2, b2) { Some(Ordering::Equal) => (), x => return x } match ::core::cmp::PartialOrd::partial_cmp(a1, b1) { Some(Ordering::Equal) => (), x => return x } Some(Ordering::Equal) }, (T::Unit(a0, a1), T::Unit(b0, b1)) => { match ::core::cmp::PartialOrd::partial_cmp(a1, b1) { Some(Ordering::Equal) => (), x => return x } match ::core::cmp::PartialOrd::partial_cmp(a0, b0) { Some(Ordering::Equal) => (), x => return x } Some(Ordering::Equal) }, _ => Some(o_disc(a).cmp(&o_disc(b))) } }
+#[repr(u8)]
+#[educe(Ord, Eq, PartialEq)]
+pub enum T { B(::core::num::NonZeroU8, Option<u8>), None(#[educe(Ord(rank = "+1"))] (), &'static u8) }
+impl PartialOrd for T { fn partial_cmp(&self, o: &Self) -> Option<Ordering> { Some(::core::cmp::Ord::cmp(self, o)) } }
+pub fn values() -> Vec<T> { vec![T::B(::core::num::NonZeroU8::new(1).unwrap(), None), T::B(::core::num::NonZeroU8::new(1).unwrap(), Some(0)), T::B(::core::num::NonZeroU8::new(1).unwrap(), Some(255)), T::B(::core::num::NonZeroU8::new(200).unwrap(), None), T::B(::core::num::NonZeroU8::new(200).unwrap(), Some(0)), T::B(::core::num::NonZeroU8::new(200).unwrap(), Some(255)), T::None((), &3u8), T::None((), &200u8)] }
+pub fn show(x: &T) -> String { #[allow(unused_variables)] match x { T::B(p0, p1) => format!("B({},{})", sv(p0), sv(p1)), T::None(p0, p1) => format!("None({},{})", sv(p0), sv(p1)) } }
+pub fn o_disc(x: &T) -> i128 { match x { T::B(_, _) => 0, T::None(_, _) => 1 } }
+pub fn o_cmp(a: &T, b: &T) -> Ordering { match (a, b) { (T::B(a0, a1), T::B(b0, b1)) => { let c = ::core::cmp::Ord::cmp(a0, b0); if c != Ordering::Equal { return c; } let c = ::core::cmp::Ord::cmp(a1, b1); if c != Ordering::Equal { return c; } Ordering::Equal }, (T::None(a0, a1), T::None(b0, b1)) => { let c = ::core::cmp::Ord::cmp(a1, b1); if c != Ordering::Equal { return c; } let c = ::core::cmp::Ord::cmp(a0, b0); if c != Ordering::Equal { return c; } Ordering::Equal }, _ => o_disc(a).cmp(&o_disc(b)) } }
 #[repr(C)] pub struct Wrap { pub pre: u8, pub x: T, pub post: [u8; 9] }
 pub fn wrap(i: usize, n: u8) -> Wrap { Wrap { pre: n, x: values().swap_remove(i), post: [n; 9] } }
-pub fn run(out: &mut Out) { let vs = values(); for (i, a) in vs.iter().enumerate() { for (j, b) in vs.iter().enumerate() { let e = o_pcmp(a, b); let g = ::core::cmp::PartialOrd::partial_cmp(a, b); out.check(g == e, "ordlayout_16", "partial_cmp", || format!("partial_cmp({}, {}) = {:?} expected {:?}", show(a), show(b), g, e)); for n in [0u8, 1, 0x7f, 0x80, 0xff] { let wa = wrap(i, n); let wb = wrap(j, !n); let g = ::core::cmp::PartialOrd::partial_cmp(&wa.x, &wb.x); let e = o_pcmp(a, b); out.check(g == e, "ordlayout_16", "cmp_neighbours", || format!("cmp({}, {}) with neighbour bytes {} = {:?} expected {:?}", show(a), show(b), n, g, e)); } } } }
+pub fn run(out: &mut Out) { let vs = values(); for (i, a) in vs.iter().enumerate() { for (j, b) in vs.iter().enumerate() { let e = o_cmp(a, b); let g = ::core::cmp::Ord::cmp(a, b); out.check(g == e, "ordlayout_16", "cmp", || format!("cmp({}, {}) = {:?} expected {:?}", show(a), show(b), g, e)); for n in [0u8, 1, 0x7f, 0x80, 0xff] { let wa = wrap(i, n); let wb = wrap(j, !n); let g = ::core::cmp::Ord::cmp(&wa.x, &wb.x); let e = o_cmp(a, b); out.check(g == e, "ordlayout_16", "cmp_neighbours", || format!("cmp({}, {}) with neighbour bytes {} = {:?} expected {:?}", show(a), show(b), n, g, e)); } } } }
